@@ -65,7 +65,7 @@ func (C11) ID() string { return "C11" }
 func (C11) Explore(x *kernel.Explorer, seed uint64) {
 	r := kernel.NewRNG(seed, 0xc11)
 	for i := 0; i < 4 && !x.Expired(); i++ {
-		plan := &kernel.Plan{Prop: "C11", Seed: kernel.Mix(seed, uint64(i)), Swarm: map[string]int64{"idlenth": int64([]int{0, 0, 0, 2, 3}[r.Intn(5)]), "pgreexec": int64(r.Intn(2)),
+		plan := &kernel.Plan{Prop: "C11", Seed: kernel.Mix(seed, uint64(i)), Swarm: map[string]int64{"idlenth": int64([]int{0, 0, 0, 2, 3}[r.Intn(5)]), "pgreexec": int64(r.Intn(2)), "fetch": int64([]int{0, 0, 1, 2}[r.Intn(4)]),
 			"chunk": int64(r.Intn(4)), "win": int64(r.Intn(12)), "side": int64(r.Intn(2)), "env": int64(r.Intn(2)),
 			"pattern": int64(r.Intn(4)), "params": int64(r.Intn(2)), "binary": int64(r.Intn(2)), "sqlprep": int64(r.Intn(3)), "mysql": int64(r.Intn(3) / 2), "depeof": int64(r.Intn(2)), "rawmy": int64(r.Intn(2)), "reexec": int64(r.Intn(2)), "wyield": int64(r.Intn(2))}}
 		n := 1 + r.Intn(5)
@@ -263,7 +263,7 @@ var c19OID = map[string]uint32{"str": 25, "bytes": 17, "int32": 23, "int64": 20}
 func (C19) Explore(x *kernel.Explorer, seed uint64) {
 	r := kernel.NewRNG(seed, 0xc19)
 	for i := 0; i < 4 && !x.Expired(); i++ {
-		plan := &kernel.Plan{Prop: "C19", Seed: kernel.Mix(seed, uint64(i)), Swarm: map[string]int64{"idlenth": int64([]int{0, 0, 0, 2, 3}[r.Intn(5)]), "pgreexec": int64(r.Intn(2)),
+		plan := &kernel.Plan{Prop: "C19", Seed: kernel.Mix(seed, uint64(i)), Swarm: map[string]int64{"idlenth": int64([]int{0, 0, 0, 2, 3}[r.Intn(5)]), "pgreexec": int64(r.Intn(2)), "fetch": int64([]int{0, 0, 1, 2}[r.Intn(4)]),
 			"chunk": int64(r.Intn(4)), "type": int64(r.Intn(4)), "policy": int64(r.Intn(4)), "env": int64(r.Intn(2)),
 			"binary": int64(r.Intn(2)), "params": int64(r.Intn(2)), "describe": int64(r.Intn(2)), "extra": int64(r.Intn(2)), "mysql": int64(r.Intn(3) / 2), "depeof": int64(r.Intn(2)), "rawmy": int64(r.Intn(2)), "reexec": int64(r.Intn(2)), "wyield": int64(r.Intn(2)),
 			"mixed": int64(r.Intn(4) / 3), "type2": int64(r.Intn(4)), "policy2": int64(r.Intn(4)), "valseed": int64(r.Intn(8))}}
@@ -570,7 +570,7 @@ func (C09) ID() string { return "C09" }
 func (C09) Explore(x *kernel.Explorer, seed uint64) {
 	r := kernel.NewRNG(seed, 0xc09)
 	for i := 0; i < 4 && !x.Expired(); i++ {
-		plan := &kernel.Plan{Prop: "C09", Seed: kernel.Mix(seed, uint64(i)), Swarm: map[string]int64{"idlenth": int64([]int{0, 0, 0, 2, 3}[r.Intn(5)]), "pgreexec": int64(r.Intn(2)),
+		plan := &kernel.Plan{Prop: "C09", Seed: kernel.Mix(seed, uint64(i)), Swarm: map[string]int64{"idlenth": int64([]int{0, 0, 0, 2, 3}[r.Intn(5)]), "pgreexec": int64(r.Intn(2)), "fetch": int64([]int{0, 0, 1, 2}[r.Intn(4)]),
 			"chunk": int64(r.Intn(4)), "env": int64(r.Intn(2)), "typed": int64(r.Intn(2)), "params": int64(r.Intn(2)), "mysql": int64(r.Intn(3) / 2), "depeof": int64(r.Intn(2)), "rawmy": int64(r.Intn(2)), "reexec": int64(r.Intn(2)), "wyield": int64(r.Intn(2)),
 			"join": int64(r.Intn(4) / 3), "rotfail": int64(r.Intn(3)/2) * int64(1+r.Intn(8))}}
 		n := 2 + r.Intn(7)
